@@ -29,7 +29,15 @@ theorem heldX_denN_of_heldSame {ext : Nat → Nat} {m m' : Mgr} (hI : Inv m) (hI
 
 /-- the contract of sifting holds: C07's totality theorem for the default schedule -/
 theorem siftContract (ext : Nat → Nat) : SiftContract ext := by
-  refine ⟨fun m hD hoff => ?_⟩
+  refine ⟨fun m hD hoff => ?_, fun m m'' hD _ hrun'' => ?_⟩
+  rotate_left
+  · obtain ⟨m', hrun, _, _, hrel⟩ :=
+      applySifting_total_default ext m hD.reorderInv hD.nvars hD.sched
+    have hrun2 : applySifting m = (.ok (), m'') := hrun''
+    rw [hrun] at hrun2
+    have : m' = m'' := by injection hrun2
+    subst this
+    exact hrel.roots
   obtain ⟨m', hrun, ⟨hR', _⟩, hs', hrel⟩ :=
     applySifting_total_default ext m hD.reorderInv hD.nvars hD.sched
   refine ⟨m', hrun, ⟨hR'.inv, hR'.order, hR'.refExact, by rw [hrel.ctx]; exact hD.ctx, hs',
